@@ -172,6 +172,15 @@ CHECKS["C16"] = dict(
     parts=[rapid_part("rapid", "compose", "TestC16", 5000, 50000, replay_test="TestC16Replay")],
 )
 
+CHECKS["C10"] = dict(
+    technique="property-based testing (rapid) with recording callback handlers: generated graphs x handler supply plans x gated parallel nodes released in generated orders x handler stream behaviours; oracle = exact-once pairing per (handler, unit) derived from the reference model + payload equality + designated-handler isolation; run under the race detector",
+    level_text="Generated graphs (pregel / all-predecessor / workflow, nested) whose top-level lambdas are gated so that parallel nodes overlap and finish in a generated order; handlers are supplied globally (0-2), per call in 0-4 WithCallbacks options with 1-3 handlers each (the slice capacities this produces are the point), and designated to lambda nodes at any nesting level; full handlers and HandlerBuilder handlers for value timings only; Invoke and Stream; every handler reads its stream copy fully, reads a prefix and closes, or closes at once. Units (the run, graph nodes, lambda executions with input and output) come from the reference model. For every full handler that applies to a unit: exactly one start-type and one end-type event carrying the unit's name, value payloads (and fully read stream payloads) equal the unit's input/output; designated handlers are invoked for their node only; the run's result equals the reference whatever handlers do with their copies. Built with -race.",
+    level_note="Only clean runs are judged (failing or timing-dependent runs are counted and skipped). Tool-call units are exercised in C17. Parallel overlap is produced by gates and observed (label gated-bodies-overlapped); the interleaving inside the framework is the Go scheduler's.",
+    rule="rapid draws a GraphSpec, paradigm, handler supply plan and release order; non-trivial = (>= 2 designated handlers on top-level nodes, >= 2 gated bodies observed waiting at the same time, per-call handlers in >= 2 options) or (Stream paradigm with a full handler closing its copy early and >= 2 executions); distinct = FNV-1a of case JSON",
+    assumptions=GRAPH_ASSUME,
+    parts=[rapid_part("rapid", "compose", "TestC10", 1500, 12000, race=True, replay_test="TestC10Replay", replay_reps=5)],
+)
+
 # properties not claimed (with reason); everything else not in CHECKS is "not built yet"
 NOT_APPLICABLE = {}
 
